@@ -94,7 +94,7 @@ pub fn c12(tier: &str) -> ! {
     rep.cov("files_written", json!(cases.len()));
     rep.cov("truncated_reads", json!(shm.get(C_USER)));
     rep.cov("append_after_partial_record_cases", json!(shm.get(C_USER + 1)));
-    rep.cov("rule", json!("one evaluation = one log file written through the real LogWriter (record-length triples placing the write position at every residue 0..16 before a block end, second record from the classes {0..16} u {B-H-8..B-H+8} u {2(B-H)-8..+8} u {3B}, every way of re-opening the writer between appends) read back through the real LogReader and compared byte for byte; or one truncation of such a file (every byte for files < 1 KiB; +-16 around every fragment, header and block boundary plus a stride of 997 otherwise) where the reader must return exactly the records wholly inside the prefix; or one 'writer stopped between two fragments, new writer appends two records' file. distinct_nontrivial = evaluations whose file has a multi-fragment record, a zero-padded trailer or a writer re-opening"));
+    rep.cov("rule", json!("one evaluation = one log file written through the real LogWriter (record-length triples placing the write position at every residue 0..16 (thorough 0..32) before a block end, second record from the classes {0..16} u {B-H-8..B-H+8} u {2(B-H)-8..+8} u {3B} (thorough: twice as wide, third record from {0,1,7,100,B-H,B+1}), every way of re-opening the writer between appends) read back through the real LogReader and compared byte for byte; or one truncation of such a file (every byte for files < 1 KiB; +-16 around every fragment, header and block boundary plus a stride of 997 otherwise) where the reader must return exactly the records wholly inside the prefix; or one 'writer stopped between two fragments, new writer appends two records' file. distinct_nontrivial = evaluations whose file has a multi-fragment record, a zero-padded trailer or a writer re-opening"));
     for c in cases.iter().step_by((cases.len() / 4).max(1)).take(4) {
         rep.cov_push("samples", json!({"record_lengths": c.lens, "reopen_mask": c.split, "truncations": c.truncations, "stop_between_fragments": c.stop_between_fragments}));
     }
@@ -150,8 +150,13 @@ pub fn c14(tier: &str) -> ! {
     // (i) the public policy: one job per bits_per_key
     let shm2 = Arc::clone(&shm);
     let max_set = if t { 3 } else { 2 };
-    let big: Vec<usize> = if t { vec![10, 100, 1000, 5000] } else { vec![10, 100, 1000] };
-    let (capped1, machinery) = pool(64, workers(), &shm, Some(Instant::now() + budget(tier, 30, 1800)), move |j| bloom_job(j + 1, &shm2, max_set, &big));
+    let big: Vec<usize> = if t { vec![10, 100, 1000, 5000, 20000] } else { vec![10, 100, 1000] };
+    // bits_per_key settings: every value 1..=64 (thorough 1..=128) and a few large ones
+    let mut bits: Vec<usize> = (1..=if t { 128 } else { 64 }).collect();
+    bits.extend(if t { vec![200, 255, 256, 1000, 4096] } else { vec![100, 1000] });
+    let bits = Arc::new(bits);
+    let bits2 = Arc::clone(&bits);
+    let (capped1, machinery) = pool(bits.len(), workers(), &shm, Some(Instant::now() + budget(tier, 30, 1800)), move |j| bloom_job(bits2[j], &shm2, max_set, &big));
     for m in machinery {
         rep.machinery.push(m);
     }
@@ -188,7 +193,7 @@ pub fn c14(tier: &str) -> ! {
     rep.cov("bloom_membership_checks", json!(shm.get(C_USER + 3)));
     rep.cov("tables_checked", json!(cases.len()));
     rep.cov("block_filter_checks", json!(shm.get(C_USER + 2)));
-    rep.cov("rule", json!("(i) one evaluation = one filter created by the public BloomFilterPolicy for a key multiset (all multisets of size 0..2 (thorough 3) over the 40 byte strings of length 0..3 over {00,61,ff}; generated sets of 10/100/1000(/5000) keys with and without duplicates) for each bits_per_key 1..=64; every member must answer Ok(true). (ii) one evaluation = one table (C13's sets plus tables with 3000-byte values and 1-byte .. 1 MiB blocks): for every data block and every user key stored in it the filter block consulted with the block's offset answers 'may match', and get finds every stored (key, seq). distinct_nontrivial = filters over >= 2 keys plus tables with > 1 block or > 3 entries"));
+    rep.cov("rule", json!("(i) one evaluation = one filter created by the public BloomFilterPolicy for a key multiset (all multisets of size 0..2 (thorough 3) over the 40 byte strings of length 0..3 over {00,61,ff}; generated sets of 10/100/1000(/5000) keys with and without duplicates) for each bits_per_key in 1..=64 u {100, 1000} (thorough 1..=128 u {200,255,256,1000,4096}, sets up to 20000 keys); every member must answer Ok(true). (ii) one evaluation = one table (C13's sets plus tables with 3000-byte values and 1-byte .. 1 MiB blocks): for every data block and every user key stored in it the filter block consulted with the block's offset answers 'may match', and get finds every stored (key, seq). distinct_nontrivial = filters over >= 2 keys plus tables with > 1 block or > 3 entries"));
     rep.cov_push("samples", json!({"bloom": {"bits_per_key": 10, "set": ["\"\"", "\\x00", "a\\xff"]}}));
     for c in cases.iter().rev().take(2) {
         rep.cov_push("samples", table_case_json(c));
